@@ -91,3 +91,16 @@ package tx
 //@   requires decimal: okDec(awardAmount)
 //@   ensures coinbase_with_one_output_of_the_amount: result1 == nil ==> result0 != nil && result0.Coinbase && !result0.Autogen && len(result0.TxOutputs) == 1 && result0.TxOutputs[0] != nil && natOf(result0.TxOutputs[0].Amount) == parseDec(awardAmount) && str(result0.TxOutputs[0].ToAddr) == address && len(result0.TxInputs) == 0 && len(result0.TxInputsExt) == 0 && len(result0.TxOutputsExt) == 0
 //@   ensures negative_refused: result1 != nil ==> parseDec(awardAmount) < 0 && result0 == nil
+
+// ======================= C06: the pool after a restart =======================
+// On open the in-memory pool is rebuilt from the persisted unconfirmed table: EVERY
+// persisted record ends up in the mirror under its transaction id (the records are what
+// the state database holds effects for; the walk to the ledger tip rolls exactly
+// these back), and the count is the number of records.
+//@ macro recTxid(it, i) = substr(kvKeyAt(it, i), 1, len(kvKeyAt(it, i)))
+//@ func Tx.LoadUnconfirmedTxFromDisk
+//@   property C06
+//@   requires mirror_given: t.UnconfirmTxInMem != nil
+//@   ensures every_persisted_record_is_in_the_pool: result == nil ==> (forall i int :: 0 <= i && i < kvLen(iter) ==> sel(sel(syncVal, t.UnconfirmTxInMem), boxed(recTxid(iter, i))) != nil) && t.UnconfirmTxAmount == kvLen(iter)
+//@   at Database.NewIteratorWithPrefix assert over_the_unconfirmed_table: recv == t.ldb && str($0) == xldgpb.UnconfirmedTablePrefix
+//@   loop 1 invariant loaded_so_far: sel(kvPos, iter) >= 0 - 1 && sel(kvPos, iter) < kvLen(iter) && count == sel(kvPos, iter) + 1 && t.UnconfirmTxInMem == old(t.UnconfirmTxInMem) && (forall i int :: 0 <= i && i <= sel(kvPos, iter) ==> sel(sel(syncVal, t.UnconfirmTxInMem), boxed(recTxid(iter, i))) != nil)
